@@ -129,6 +129,111 @@ def nat_overlap(params, model):
     return {"ok": label is None, "detail": label or "equals the whole-run computation", "label": label}
 
 
+# ---------------------------------------------------------------------------- window given as a float / numpy integer
+def sym_window_types(wkind):
+    """get_window_size may return floats (explicitly allowed) or numpy integers.  Epoch-size timestamps (>= 2^60 ns),
+    a chunk boundary at b = 200 mod 256, row A = [b-3, b-1) in the first chunk and row B = [b, b+2) in the second,
+    window 10 on both sides: A and B are neighbours.  The symbolic run is exact; what is decided here is the machine
+    arithmetic of the plugin's `end - 2 * window - 1`, by the native replay of the path witness."""
+    S = fresh_int("S", 2**60, H.T_MAX)
+    E = fresh_int("E", 0, H.T_MAX)
+    L = ctx.sym_layout("src_", [1, 1], S, disjoint=True, E=E)
+    b = L.bounds[1]
+    (t0, e0, _), (t1, e1, _) = L.rows
+    assume(sand(b % 256 == 200, t0 == b - 3, e0 == b - 1, t1 == b, e1 == b + 2, S <= b - 1000, E >= b + 1000))
+    chunks = _run([1, 1], 10, 10, False, True, L, "ov")
+    return _check(chunks, L.rows, 10, 10, S, E, "ov")
+
+
+WINDOWS = {"float": 10.0, "float_pair": (10.0, 10.0), "np_int64": np.int64(10), "np_int32_pair": (np.int32(10), np.int32(10)),
+           "int": 10}
+
+
+def nat_window_types(params, model):
+    S, E = model["S"], model["E"]
+    L = ctx.conc_layout(model, "src_", [1, 1], S, E=E)
+    w = WINDOWS[params["wkind"]]
+    P = [ctx.P_source("src", "ksrc", L, False), P_overlap("ov", "src", False, 10, 10)]
+    P[1].get_window_size = lambda self: w  # the computation uses 10 ns; only the declared window's TYPE varies
+    with warnings.catch_warnings():
+        warnings.simplefilter("ignore")
+        try:
+            st = ctx.make_context(P)
+            chunks = list(st.get_iter(RUN, "ov", processor="single_thread", progress_bar=False))
+        except Exception as e:
+            return {"ok": False, "label": f"window_types:{params['wkind']} window raised",
+                    "detail": f"window {w!r} ({type(w).__name__}) raised {type(e).__name__}: {e}"}
+    label = core.concrete_run(lambda: _check(chunks, L.rows, 10, 10, S, E, "ov"), model)
+    return {"ok": label is None, "label": f"window_types:{params['wkind']} window gives chunking-dependent results" if label else None,
+            "detail": label or "equals the whole-run computation"}
+
+
+# ---------------------------------------------------------------------------- two outputs whose rows interleave
+def _links_plugin(obj, w):
+    """Outputs: 'cp' = one row per input row; 'lk' = one row per pair of touching input rows, running from the centre of
+    the first to the centre of the second - the rows of the two outputs interleave like a staircase, so the common
+    cache / send boundary of the plugin has to be walked back row by row."""
+    import strax
+    from immutabledict import immutabledict
+
+    class Links(strax.OverlapWindowPlugin):
+        provides = ("cp", "lk")
+        depends_on = ("src",)
+        data_kind = immutabledict(cp="k_cp", lk="k_lk")
+        dtype = dict(cp=ctx.dt(ctx.ROW, obj), lk=ctx.dt(ctx.ROW, obj))
+
+        def get_window_size(self):
+            return w
+
+        def compute(self, ksrc):
+            x = ksrc
+            cp = ctx.new_arr(ctx.ROW, len(x), obj)
+            for q in range(len(x)):
+                cp["time"][q], cp["endtime"][q], cp["id"][q] = x["time"][q], x["endtime"][q], x["id"][q]
+            pairs = [q for q in range(len(x) - 1) if int(x["endtime"][q]) == int(x["time"][q + 1])]
+            lk = ctx.new_arr(ctx.ROW, len(pairs), obj)
+            for o, q in enumerate(pairs):
+                lk["time"][o] = (x["time"][q] + x["endtime"][q]) // 2
+                lk["endtime"][o] = (x["time"][q + 1] + x["endtime"][q + 1]) // 2
+                lk["id"][o] = x["id"][q]
+            return dict(cp=cp, lk=lk)
+
+    return Links
+
+
+def _links_run(n, first, b1, obj, target):
+    rows = [(10 * i, 10 * i + 10, i) for i in range(n)]  # a train of touching rows (concrete)
+    L = ctx.Layout([0, b1, 10 * n + 50], [rows[:first], rows[first:]])
+    st = ctx.make_context([ctx.P_source("src", "ksrc", L, obj), _links_plugin(obj, 10)])
+    return list(st.get_iter(RUN, target, processor="single_thread", progress_bar=False)), 10 * n + 50
+
+
+def _links_check(chunks, n, E, target):
+    ctx.check_tiling(chunks, 0, E, "links")
+    ids = [int(c.data["id"][q]) for c in chunks for q in range(len(c.data))]
+    want = list(range(n)) if target == "cp" else list(range(n - 1))
+    prove(ids == want, f"links:rows of {target} lost / duplicated at the chunk boundary: {ids}")
+    return ids
+
+
+def sym_links(n, first, target):
+    b1 = fresh_int("b1", 0, H.T_MAX)
+    assume(sand(b1 >= 10 * first, b1 <= 10 * first if first < n else b1 <= 10 * n + 50))
+    chunks, E = _links_run(n, first, b1, True, target)
+    return _links_check(chunks, n, E, target)
+
+
+def nat_links(params, model):
+    with warnings.catch_warnings():
+        warnings.simplefilter("ignore")
+        try:
+            chunks, E = _links_run(params["n"], params["first"], model["b1"], False, params["target"])
+        except Exception as e:
+            return {"ok": False, "label": "links:raised", "detail": f"raised {type(e).__name__}: {e}"}
+    label = core.concrete_run(lambda: _links_check(chunks, params["n"], E, params["target"]), model)
+    return {"ok": label is None, "detail": label or "all rows once", "label": label}
+
+
 def sym_twin():
     sym_overlap([1, 1], 1, 1)
     prove(False, "twin:reachable")
@@ -157,6 +262,8 @@ def _grid(tier):
 
 
 MUTANTS = [
+    dict(name="original F-C09: window kept as a float", file="strax/plugins/overlap_window_plugin.py", only="window_types",
+         old="            window_size = int(np.ceil(window_size))\n", new=""),
     dict(name="results sent one window too early", file="strax/plugins/overlap_window_plugin.py",
          old="invalid_beyond = int(end - 2 * window_size[1] - 1)", new="invalid_beyond = int(end)"),
     dict(name="input cache too short", file="strax/plugins/overlap_window_plugin.py",
@@ -170,5 +277,10 @@ MUTANTS = [
 OBLIGATIONS = [
     Ob("overlap", sym_overlap, _grid, nat_overlap, setup=_setup, witnesses=2, max_paths=400000,
        doc="concatenated output == one computation over the whole run; output chunks contiguous"),
+    Ob("links", sym_links, lambda tier: [dict(n=n, first=f, target=t) for n in ((14,) if tier == "quick" else (14, 20))
+                                         for f in (n, n - 1, n // 2) for t in ("cp", "lk")], nat_links, setup=_setup,
+       witnesses=1, doc="two-output plugin whose outputs interleave (train of touching rows): nothing lost at the boundary"),
+    Ob("window_types", sym_window_types, lambda tier: [dict(wkind=k) for k in WINDOWS], nat_window_types, setup=_setup,
+       witnesses=1, doc="float / numpy-integer windows at epoch-size timestamps, decided natively"),
     Ob("twin", sym_twin, lambda tier: [dict()], None, setup=_setup, expect_cex=True),
 ]
